@@ -193,7 +193,11 @@ void harness(void) {
     cif_container_tp top; int rc, i, k, d0, all_continue = 1;
     for (i = 0; i < NTOK; i++) { buf[W * i] = (script[i] == 'N') ? '_' : 'v'; buf[W * i + 1] = (UChar) ('a' + i % 20); buf[W * i + 2] = ' '; }
 #ifdef SAME_AT          /* the name token at SAME_AT repeats the spelling of the one at SAME_AS, in the other letter case (a duplicate inside one loop header) */
+#ifdef SAME_REV         /* ... the EARLIER one in upper case */
+    buf[W * SAME_AS + 1] = (UChar) ('A' + SAME_AS % 20); buf[W * SAME_AT + 1] = (UChar) ('a' + SAME_AS % 20);
+#else
     buf[W * SAME_AT + 1] = (UChar) ('A' + SAME_AS % 20);
+#endif
 #endif
     for (k = 0; k < NKIND; k++) for (i = 0; i < NPOS; i++) {
         int a = 0;
@@ -228,6 +232,7 @@ void harness(void) {
     rc = __CPROVER_file_local_parser_c_parse_container(&sc, syntax_only ? NULL : &top, 1);
     /* ---- generic (any script, any program) ---- */
     V_ASSERT(!pv_bad, "parse_value is entered only on a value token");
+    V_ASSERT(rc != CIF_TRAVERSE_SKIP_CURRENT && rc != CIF_TRAVERSE_SKIP_SIBLINGS, "a skip request is acted on inside the production and does not escape as its result (parse_cif would take it for a request to stop)");
     V_ASSERT(!skip_violation, "no handler callback, syntax callback or store operation is made for a bypassed entity");
     V_ASSERT(!after_stop_violation, "END or a positive handler result stops all further callbacks and store operations");
     V_ASSERT(!order_violation, "stored items carry the name that preceded their value");
